@@ -107,7 +107,8 @@ def single_site(ds, rep, cov):
 RESERVED = set("""TYPE END_TYPE STRUCT END_STRUCT ARRAY OF FUNCTION_BLOCK END_FUNCTION_BLOCK FUNCTION END_FUNCTION PROGRAM END_PROGRAM
 VAR VAR_INPUT VAR_OUTPUT VAR_IN_OUT VAR_EXTERNAL VAR_GLOBAL VAR_ACCESS VAR_CONFIG END_VAR CONSTANT RETAIN NON_RETAIN AT IF THEN ELSIF ELSE END_IF
 CASE END_CASE FOR TO BY DO END_FOR WHILE END_WHILE REPEAT UNTIL END_REPEAT EXIT RETURN CONFIGURATION END_CONFIGURATION RESOURCE ON
-END_RESOURCE TASK WITH PRIORITY INTERVAL INT BOOL REAL TIME DINT SINT LINT UINT STRING TRUE FALSE TON TOF CTU R_TRIG AND OR NOT MOD XOR""".split())
+END_RESOURCE TASK WITH PRIORITY INTERVAL INT BOOL REAL TIME DINT SINT LINT UINT STRING TRUE FALSE TON TOF CTU R_TRIG AND OR NOT MOD XOR
+INITIAL_STEP STEP END_STEP TRANSITION END_TRANSITION FROM ACTION END_ACTION N R S P L D SD DS SL P0 P1 READ_ONLY READ_WRITE R_EDGE F_EDGE""".split())
 _WORD = re.compile(r"[A-Za-z_][A-Za-z0-9_]*")
 
 
@@ -122,10 +123,16 @@ def _words(text):
         elif text[i] in "'\"":
             j = text.find(text[i], i + 1)
             i = n if j < 0 else j + 1
+        elif text[i].isdigit():
+            # a number, or the numeric part of a literal (100ms, 16#FF, 1.5E3): not a word
+            m = re.compile(r"[0-9][0-9A-Za-z_.#]*").match(text, i)
+            i = m.end()
         else:
             m = _WORD.match(text, i)
             if m:
-                out.append((m.start(), m.end()))
+                # the prefix of a typed literal (T#100ms, INT#5) is part of the literal, not a word of its own
+                if not (text[m.end():m.end() + 1] == "#" and text[m.end() + 1:m.end() + 2].isdigit()):
+                    out.append((m.start(), m.end()))
                 i = m.end()
             else:
                 i += 1
@@ -187,6 +194,9 @@ def unit_clause(rep, cov, tier):
                (all(p["ok"] for p in rr.get("parse", [])), bool(rr.get("analyze_ok")), sorted(set(d["code"] for d in rr.get("analyze_diags", [])))))
         if v == 0:
             ref = obs
+            if obs == "crash" or not obs[0] or (not rec["violated"] and not obs[1] and obs[2] != ["P9999"]):
+                # vacuity guard: the renamed canonical text must still be the unit it was made from
+                raise vlib.ToolError("the renamed canonical spelling of a unit is not accepted as the unit was: %r\n%s" % (obs, base[:1500]))
             continue
         n += 1
         if obs != ref:
